@@ -143,6 +143,16 @@ def _split(key, c):
     return version, rest
 
 
+def _children(content):
+    out = {}
+    for key, c in content.items():
+        if key[0] == 'd':
+            parent = next((el[1] for el in c[0] if isinstance(el, tuple) and el[0] == 'parent'), None)
+            if parent is not None:
+                out.setdefault(parent, set()).add(key[1])
+    return out
+
+
 class Tracker:
     """History-wide bookkeeping kept by the harness (independent of handle_version_lookup)."""
 
@@ -198,6 +208,17 @@ def check_step(rec, tracker, mdib):
         pub = tracker.published.get((key, v))
         if pub is not None and pub != rest:
             return ('same-version-two-contents', f'{key[0]}', {'key': key, 'version': v})
+    # the set of children is part of what a descriptor publishes (MdDescription nests them): when it changes, the parent's
+    # DescriptorVersion must rise and the parent must be reported
+    kids_b, kids_a = _children(b), _children(a)
+    for ph in sorted(set(kids_b) | set(kids_a)):
+        if ('d', ph) in b and ('d', ph) in a and kids_b.get(ph, set()) != kids_a.get(ph, set()):
+            vb, _ = _split(('d', ph), b[('d', ph)])
+            va, _ = _split(('d', ph), a[('d', ph)])
+            if (va or 0) <= (vb or 0):
+                return ('children-changed-without-parent-version-increase', 'd',
+                        {'parent': ph, 'version': va, 'children_before': sorted(kids_b.get(ph, set())),
+                         'children_after': sorted(kids_a.get(ph, set()))})
     # the transaction result must not name one (handle, version) with two different contents
     for tx in rec.tx_result:
         seen = {}
